@@ -13,7 +13,8 @@ DEVS = ['bd_trough', 'bd_plunger', 'bd_lock']
 COIL = {'c_trough': 'bd_trough', 'c_plunger': 'bd_plunger', 'c_lock': 'bd_lock'}
 TOPO = {
     'balls': dict(switches={'bd_trough': ['s_t1', 's_t2', 's_t3'], 'bd_plunger': ['s_plunger'], 'bd_lock': ['s_lock1', 's_lock2']},
-                  target={'bd_trough': 'bd_plunger', 'bd_plunger': 'pf', 'bd_lock': 'pf'}, cap='MCCap', tgt='MCTarget'),
+                  target={'bd_trough': 'bd_plunger', 'bd_plunger': 'pf', 'bd_lock': 'pf'}, cap='MCCap', tgt='MCTarget',
+                  launch='vb_launch_button'),
     'balls2': dict(switches={'bd_trough': ['s_t1', 's_t2', 's_t3'], 'bd_plunger': ['s_plunger', 's_plunger2'],
                              'bd_lock': ['s_lock1', 's_lock2']},
                    target={'bd_trough': 'bd_plunger', 'bd_plunger': 'pf', 'bd_lock': 'bd_plunger'}, cap='MCCap2', tgt='MCTarget2'),
@@ -55,6 +56,15 @@ class World:
         self.fired = set()             # devices whose coil was pulsed and whose ball has not reacted yet
         self.HOLDING = TOPO[topo].get('holding', [])
         self.GAME = bool(TOPO[topo].get('game'))
+        self.LAUNCH = TOPO[topo].get('launch')
+        self.nreq = 0
+        if self.LAUNCH:
+            self._press()
+
+    def _press(self):
+        # a player who keeps pressing the launch button (every 1.7 s): player-controlled ejects wait for it
+        self.m.events.post(self.LAUNCH)
+        self.loop.call_later(1.7, self._press)
         self.released = {}             # holding device -> released balls that have not left yet
         self.since = {}                # ball -> time it came to rest where it is
         self.want = 0
@@ -221,8 +231,10 @@ class World:
             self.m.events.post('mb_add' if self.m.multiballs['mb'].balls_live_target > 0 else 'mb_start')
             return
         self.want += 1
+        self.nreq += 1
         self.log(op='request')
-        self.m.playfield.add_ball(1)
+        # with a launch button every third request is player controlled (the ball waits in the launcher for the button)
+        self.m.playfield.add_ball(1, player_controlled=bool(self.LAUNCH and self.nreq % 3 == 0))
 
     def quiet(self):
         return self.pending == 0 and not any(isinstance(p, tuple) for p in self.loc.values())
